@@ -191,8 +191,27 @@ class SET(Sort):
     def fresh(self, name):
         return VSet(self.key, z3.Array(fresh_name(name + ".dom"), self.key.z3sort(), z3.BoolSort()))
 
+    def z3sort(self):
+        return z3.ArraySort(self.key.z3sort(), z3.BoolSort())
+
     def __repr__(self):
         return "SET(%r)" % self.key
+
+
+class MAYBE(Sort):
+    """Optional[container]: the container value plus a flag `none`.  `x is None` reads the flag; len / index / iteration / membership
+    on the value carry the obligation `not none` (TypeError otherwise)."""
+
+    def __init__(self, inner):
+        self.inner = inner
+
+    def fresh(self, name):
+        v = self.inner.fresh(name)
+        v.none = z3.Bool(fresh_name(name + ".is_none"))
+        return v
+
+    def __repr__(self):
+        return "MAYBE(%r)" % self.inner
 
 
 # ---------------------------------------------------------------- value wrappers
@@ -361,6 +380,8 @@ def to_z3(v, sort=None):
         raise Unsupported("None lowered without a declared sort")
     if isinstance(v, VOpt):
         return v.expr
+    if isinstance(v, VSet):
+        return v.dom
     if isinstance(v, VTuple):
         s = sort if isinstance(sort, TUPLE) else sort_of(v)
         return s.dt.mk(*[to_z3(i, si) for i, si in zip(v.items, s.items)])
@@ -375,4 +396,6 @@ def from_z3(e, sort):
         return VOpt(sort, e)
     if isinstance(sort, TUPLE):
         return VTuple([from_z3(sort.dt.accessor(0, i)(e), it) for i, it in enumerate(sort.items)])
+    if isinstance(sort, SET):
+        return VSet(sort.key, e)
     return e
